@@ -360,8 +360,12 @@ class Interp(object):
         if enter:
             try:
                 self.exec(fr, child(n, 'body'), depth)
-            except _LoopExit:
-                pass
+            except _LoopExit as e:
+                if e.kind == 'BreakStmt':
+                    # the loop is left from its first iteration: the state stays precise, no further iterations
+                    self.act('BREAK', fr.f.loc(n))
+                    self.act('ENDLOOP')
+                    return
             self.act('ITER1END', self.off)
             self.model.after_first_iteration(self, fr, n)
             if k == 'ForStmt':
